@@ -27,3 +27,25 @@ Definition check06 (c : case06) : bool :=
   end.
 
 Definition bad_cases06 (cs : list case06) : list N := map c6_id (filter (fun c => negb (check06 c)) cs).
+
+(* Chain-level cases: the final chain of one real history (blocks 0 .. height after all reorgs), each
+   block with its transactions and what the implementation recorded as its parent hash and for its
+   receipts; the model builds the whole chain (Model/ChainRun.v run_blocks) and must reproduce, block
+   by block, parent hash, gas used and the receipts' positions; the hypotheses of
+   C06_chain_coherent_run / C06_chain_linked_run (fresh hashes, contiguous heights) are evaluated too
+   (id + 500000000 when they do not hold of the recorded chain). *)
+From Brc.Model Require Import ChainRun.
+Record chain06 := { h6_id : N; h6_blocks : list (case06 * N) (* block as in case06, recorded parent hash *) }.
+
+Definition h6_in (c : chain06) : list blockin := map (fun x => (c6_number (fst x), c6_hash (fst x), c6_txs (fst x))) (h6_blocks c).
+
+Definition check_chain06 (c : chain06) : bool :=
+  let ch := run_blocks chain_init (h6_in c) in
+  all2 (fun (b : blockrec) (x : case06 * N) =>
+          (b_number b =? c6_number (fst x)) && (b_hash b =? c6_hash (fst x)) && (b_parent b =? snd x)
+          && (b_gas b =? c6_gas (fst x)) && all2 exp_eqb (b_txs b) (c6_exp (fst x)) && block_coherent b)
+       (rev (c_blocks ch)) (h6_blocks c).
+
+Definition bad_chains06 (cs : list chain06) : list N :=
+  flat_map (fun c => (if check_chain06 c then [] else [h6_id c]) ++
+                     (if fresh_blocks chain_init (h6_in c) && contiguous 0 (h6_in c) then [] else [h6_id c + 500000000])) cs.
